@@ -138,8 +138,12 @@ m("C05-unlock-gt2", "C05", "src/sync/mutex.rs",
 m("C05-add-before-push", "C05", "src/sync/mutex.rs",
   """        // register blocker first
         self.to_wake.push(cur.clone());
+        #[cfg(may_verif)]
+        crate::verif::label("mutex.lock.registered", self as *const _ as *const u8 as usize);
         // inc the cnt, if it's the first grab, unpark the first waiter
         if self.cnt.fetch_add(1, Ordering::SeqCst) == 0 {
+            #[cfg(may_verif)]
+            crate::verif::label("mutex.lock.first_grab", self as *const _ as *const u8 as usize);
             self.to_wake
                 .pop()
                 .map(|w| self.unpark_one(&w))
@@ -150,7 +154,11 @@ m("C05-add-before-push", "C05", "src/sync/mutex.rs",
         let first = self.cnt.fetch_add(1, Ordering::SeqCst) == 0;
         // register blocker
         self.to_wake.push(cur.clone());
+        #[cfg(may_verif)]
+        crate::verif::label("mutex.lock.registered", self as *const _ as *const u8 as usize);
         if first {
+            #[cfg(may_verif)]
+            crate::verif::label("mutex.lock.first_grab", self as *const _ as *const u8 as usize);
             self.to_wake
                 .pop()
                 .map(|w| self.unpark_one(&w))
